@@ -95,7 +95,7 @@ func init() {
 		ID:    "C05",
 		Level: "model_checking",
 		Rule: "every content list of length <=2 (thorough: <=3 over a reduced universe) over destinations x entry kinds x packager tags, prepared for each packager, " +
-			"plus every destination string up to length 6 (thorough 7) over {a,b,/,.}; run on files.PrepareForPackager and compared with the reference planner; part maporder: every list of <=2 entries over the reduced universe under every map iteration order (woven copy); " +
+			"plus every destination string up to length 6 (thorough 7) over {a,b,/,.}; siblings: every ordered triple over 7 destinations that sort between a path and its children x {file, dir, symlink, tree}; reprepare: a plan prepared for all packagers prepared again for one; run on files.PrepareForPackager and compared with the reference planner; part maporder: every list of <=2 entries over the reduced universe under every map iteration order (woven copy); " +
 			"a case is non-trivial when the list has >=1 relevant entry; distinct = distinct (outcome class, planned destination/kind/source set)",
 		Assumptions: []string{
 			"reference planner model/plan.go states the documented denotation",
@@ -151,6 +151,29 @@ func init() {
 						}
 						if !yield(C05Case{Part: "reprepare", Packager: p, List: []model.Entry{a, b}}) {
 							return
+						}
+					}
+				}
+			}
+			// siblings: destinations that sort between a path and its children ('.', '-', ' ', '!' < '/'), so that a path,
+			// its look-alike siblings and something beneath it are not neighbours in the sorted plan: every ordered triple
+			sibD := []string{"/a/b", "/a/b.x", "/a/b-x", "/a/b/c", "/a/b x", "/a/bb", "/a/b!/c"}
+			sibT := []model.Entry{{Src: "etc/app.conf"}, {Type: "dir"}, {Src: "/t", Type: "symlink"}, {Src: "tree", Type: "tree"}}
+			var sib []model.Entry
+			for _, t := range sibT {
+				for _, d := range sibD {
+					e := t
+					e.Dst = d
+					sib = append(sib, e)
+				}
+			}
+			for _, a := range sib {
+				for _, b := range sib {
+					for _, c := range sib {
+						for _, p := range []string{"deb", "rpm"} {
+							if !yield(C05Case{Part: "siblings", Packager: p, List: []model.Entry{a, b, c}}) {
+								return
+							}
 						}
 					}
 				}
